@@ -893,3 +893,95 @@ impl Prop for C12Sendable {
         simplify_plan(case)
     }
 }
+
+// ------------------------------------------------------------------------------------------------
+// C12: thread-local guarantees survive a caught panic of a thread-local system
+
+pub struct C12AfterPanic {
+    pub cfg: GenCfg,
+}
+
+#[derive(Clone, Debug, Serialize, Deserialize)]
+pub struct C12PanicCase {
+    pub plan: Plan,
+    /// selects the thread-local system that panics in the first dispatch
+    pub which: u16,
+    pub point: u8,
+}
+
+impl Prop for C12AfterPanic {
+    type Case = C12PanicCase;
+    fn name(&self) -> &'static str {
+        "c12-after-panic"
+    }
+    fn property(&self) -> &'static str {
+        "C12"
+    }
+    fn rule(&self) -> &'static str {
+        "plans with >= 1 top-level thread-local system; one generated thread-local system panics (before its fetch / inside run / after its release) in a first dispatch whose panic is caught; oracle on the following dispatches of the same dispatcher: every thread-local system still runs exactly once per dispatch, on the dispatching thread, after all ordinary systems, in registration order, and try_into_sendable still refuses; non-trivial = >= 2 thread-local systems; distinct = case hash"
+    }
+    fn gen(&self, src: &mut Src) -> C12PanicCase {
+        let which = src.raw();
+        let point = 1 + src.pick(3) as u8;
+        C12PanicCase {
+            plan: gen_plan(src, &self.cfg),
+            which,
+            point,
+        }
+    }
+    fn check(&self, case: &C12PanicCase, lane: usize, st: &mut Stats) -> Result<(), Fail> {
+        let mut b = build_plan(&case.plan, pool(lane, 2), &BuildOpts::default())
+            .map_err(|e| Fail::keyed("build-or-identify", e))?;
+        let flat = b.flat.clone();
+        let tls = flat.builders[0].tls.clone();
+        if tls.is_empty() {
+            st.class("no_thread_local_skipped");
+            return Ok(());
+        }
+        let victim = tls[(case.which as usize * tls.len()) >> 16];
+        let world = fresh_world();
+        b.ctx.fault[victim].store(case.point.clamp(1, 3), SeqCst);
+        let out = run_call(&mut b, &world, Entry::Dispatch, None, Duration::from_millis(3000));
+        b.ctx.fault[victim].store(FAULT_NONE, SeqCst);
+        if out.panic.is_none() {
+            return Err(Fail::new("a thread-local system panicked but dispatch returned normally"));
+        }
+        check_all_free(&world)?;
+        for round in 0..2 {
+            b.ctx.reset_counters();
+            let out = run_call(&mut b, &world, Entry::Dispatch, None, Duration::from_millis(3000));
+            if let Some(p) = &out.panic {
+                return Err(Fail::new(format!(
+                    "dispatch {} after the caught panic panicked: {}",
+                    round,
+                    describe_panic(p)
+                )));
+            }
+            let mut wins = windows(&flat, &out.log);
+            close_multi_windows(&flat, &mut wins);
+            check_thread_local(&flat, &wins, out.caller_thread, 1)
+                .map_err(|f| Fail { msg: format!("after a caught thread-local panic: {}", f.msg), key: f.key })?;
+            check_counts(&flat, &b.ctx.runs(), &expected_runs(&flat, 1, 1))
+                .map_err(|f| Fail::new(format!("after a caught thread-local panic: {}", f.msg)))?;
+        }
+        let Built { d, .. } = b;
+        if d.try_into_sendable().is_ok() {
+            return Err(Fail::new(
+                "after a caught thread-local panic try_into_sendable succeeds although thread-local systems were registered",
+            ));
+        }
+        if tls.len() >= 2 {
+            st.nontrivial(case, || json!({"thread_local": tls.len()}));
+        }
+        Ok(())
+    }
+    fn simplify(&self, case: &C12PanicCase) -> Vec<C12PanicCase> {
+        simplify_plan(&case.plan)
+            .into_iter()
+            .map(|p| C12PanicCase {
+                plan: p,
+                ..case.clone()
+            })
+            .collect()
+    }
+}
